@@ -210,13 +210,13 @@ theorem solve_correct (hinv : InverseCircuitComplete) (np : Nat) (adj : Nat → 
 /-- the loop invariant before the round that absorbs photon `m - 1` (`Solver.RInv`): real commuting independent generators on
     `np + ne` qubits; photons `m..np-1` absorbed (column literal: one generator is `+Z_q`, no other acts on `q`); no remaining photon is a
     product qubit; every cut left of the photon to be absorbed has height at most `ne` -/
-abbrev LoopInvariant (np ne m : Nat) (s : Solver.St) : Prop := Solver.RInv np ne m s
+abbrev LoopInvariant (np ne m : Nat) (s : Solver.St) : Prop := Solver.RInv (fun _ => False) np ne m s
 
 /-- the invariant holds when the loop starts (`ne = determine_n_emitters(target)`) -/
 theorem loop_invariant_initially (target : STab) (hg : target.Good) (hi : target.LinIndep) (ne : Nat)
     (hdet : Solver.determineNEmitters target = .ok ne) (hnp : ∀ p, p < target.n → target.NotProd p) :
     LoopInvariant target.n ne target.n { np := target.n, ne := ne, t := Solver.withEmitters target ne, circ := [] } :=
-  Solver.rinv_init target hg hi ne hdet hnp
+  Solver.rinv_init (fun _ => False) target hg hi ne hdet (fun p hp _ => hnp p hp) (fun _ _ h => h.elim)
 
 /-- **sub-goal 1a — the row helpers never raise**: `_add_one_qubit_gate` (because `simplify_local_clifford` is total, C20), the loop
     over the emitters with `_change_pauli_type`, the sign repair -/
@@ -258,13 +258,13 @@ theorem generator_at_photon_acts_on_emitter (np p : Nat) (t : STab) (hlit : ∀ 
 /-- **sub-goal 3 — every round returns and re-establishes the invariant**; after it photon `p` is disentangled in |0⟩ (column literal) -/
 theorem round_returns (np ne p : Nat) (hp : p < np) (s : Solver.St) (h : LoopInvariant np ne (p + 1) s) :
     ∃ s', Solver.photonRound s (p + 1) = .ok s' ∧ LoopInvariant np ne p s' ∧ s'.t.Lit p := by
-  obtain ⟨s', h1, h2⟩ := Solver.round_ok np ne p hp s h
+  obtain ⟨s', h1, h2⟩ := Solver.round_ok (fun _ => False) np ne p hp (fun f => f) s h
   exact ⟨s', h1, h2, h2.lit p (Nat.le_refl _) hp⟩
 
 /-- **the main loop returns** with every photon absorbed -/
 theorem photon_loop_returns (np ne m : Nat) (s : Solver.St) (h : LoopInvariant np ne m s) :
     ∃ s', Solver.photonLoop s ((List.range m).reverse.map (· + 1)) = .ok s' ∧ LoopInvariant np ne 0 s' :=
-  Solver.photonLoop_ok np ne m s h
+  Solver.photonLoop_ok (fun _ => False) np ne m (fun _ _ f => f) s h
 
 /-- **sub-goal 4a — after the last `rref` generator `q` is exactly `+Z_q` for every photon** (the two assertions of `solve`) -/
 theorem photons_on_the_diagonal (t : STab) (piv : Nat → Nat) (he : STab.Echelon t piv) (np : Nat) (hnp : np ≤ t.n)
@@ -317,6 +317,48 @@ example : solveOk 4 sq4adj 2 2 = true := by decide +kernel
 example : (STab.zero 2).Spn (PRow.Zq (1 + 0)) := spn_gen (STab.zero 2) 1 (by decide)
 example : (match stabRun 1 1 .prob [true] [.gate1 .H ⟨.e, 0⟩, .cnot ⟨.e, 0⟩ ⟨.p, 0⟩, .mcr ⟨.e, 0⟩ ⟨.p, 0⟩ 0] with
     | some rs => (STab.ofTab rs.t).sameGroup (STab.zero 2) | none => false) = true := by decide +kernel
+
+/-! ### The excluded targets: the hypotheses of `solver_complete` are sharp (finding D3 as a theorem about the model) -/
+
+/-- **every graph with an isolated vertex makes the solver model raise IndexError** (all sizes; finding D3: the generator `X_p` of the
+    isolated photon acts on no emitter, `emitter_indices[0]` fails in `_add_photon_absorption` — every earlier round returns) -/
+theorem isolated_vertex_raises (np : Nat) (adj : Nat → Nat → Bool) (hsym : ∀ i j, adj i j = adj j i) (hirr : ∀ i, adj i i = false)
+    (hex : ∃ p, p < np ∧ ∀ j, j < np → adj p j = false) : Solver.solve (graphSTab np adj) = .error .index :=
+  Solver.solve_isolated_raises_graph np adj hsym hirr hex
+
+/-- the empty graph raises ValueError (`max` of an empty height list) -/
+theorem empty_graph_raises (adj : Nat → Nat → Bool) : Solver.solve (graphSTab 0 adj) = .error .value :=
+  Solver.solve_empty_raises adj
+
+/-- **exact characterisation**: on simple graphs the solver model returns iff the graph is non-empty and has no isolated vertex -/
+theorem solve_returns_iff (hinv : InverseCircuitComplete) (np : Nat) (adj : Nat → Nat → Bool) (hsym : ∀ i j, adj i j = adj j i)
+    (hirr : ∀ i, adj i i = false) :
+    (∃ s, Solver.solve (graphSTab np adj) = .ok s) ↔ (0 < np ∧ ∀ i, i < np → ∃ j, j < np ∧ adj i j = true) := by
+  constructor
+  · rintro ⟨s, hs⟩
+    refine ⟨?_, ?_⟩
+    · apply Nat.pos_of_ne_zero
+      intro e
+      subst e
+      rw [empty_graph_raises adj] at hs; cases hs
+    · intro i hi
+      apply Classical.byContradiction
+      intro hno
+      have hiso : ∀ j, j < np → adj i j = false := by
+        intro j hj
+        cases h : adj i j
+        · rfl
+        · exact absurd ⟨j, hj, h⟩ hno
+      rw [isolated_vertex_raises np adj hsym hirr ⟨i, hi, hiso⟩] at hs; cases hs
+  · rintro ⟨hnp, hiso⟩
+    obtain ⟨s, hs, _⟩ := solver_complete hinv np adj hnp hsym hirr hiso
+    exact ⟨s, hs⟩
+
+/-- the smallest instances of D3 evaluate as the theorem says: K1, 2·K1, K2 + K1 -/
+example : (match Solver.solve (graphSTab 1 fun _ _ => false) with | .error .index => true | _ => false) = true := by
+  decide +kernel
+example : (match Solver.solve (graphSTab 3 fun i j => (i == 0 && j == 1) || (i == 1 && j == 0)) with
+    | .error .index => true | _ => false) = true := by decide +kernel
 
 /-! ### Non-vacuity of the completeness theorems -/
 
